@@ -303,6 +303,14 @@ def seek_shape(p, e):
         return "end"
     if off[0] == "eval" and wh[0] == "ite":
         return "pointer"
+    if off[0] == "eval" and wh in (N.const(0), N.const(2)):
+        # the same jump with the whence chosen by a statement or an expanded conditional: from the end exactly under `offset < 0`
+        neg = N.mk_cmp("<", off, N.const(0))
+        fl = set()
+        for g in p.guards(e):
+            fl |= set(g[2]) if g[0] == "bool" and g[1] == "and" else {g}
+        if (wh == N.const(2) and neg in fl) or (wh == N.const(0) and N.mk_not(neg) in fl):
+            return "pointer"
     if wh == N.const(1) and N._lin_parts(off)[1] <= 0 and all(c < 0 for c in N._lin_parts(off)[0].values()):
         return "backstep"
     flat = set()
